@@ -262,13 +262,35 @@ func probeNK(a nkArg) (string, string) {
 
 // ---- probe 3: text grammar
 type txArg struct {
+	Max  *int    `json:"max_input_length,omitempty"` // nil = default 128
 	In   mc.Bin  `json:"in"`
 	Prev *mc.Bin `json:"previous_call,omitempty"` // history of depth 2: parsed first, on the buffer that is then reused for In
 	Via  int     `json:"previous_via,omitempty"`  // the single previous call: 0 DefaultParser[[]byte] on the shared buffer, 1 DefaultParser[string], 2 UnmarshalText on the shared buffer
 }
 
+func setupTX(a txArg) {
+	size.MaxInputLength = 128
+	if a.Max != nil {
+		size.MaxInputLength = *a.Max
+	}
+}
+
 func probeTX(a txArg) (string, string) {
 	e := oracle.SizeText(string(a.In))
+	if lim := size.MaxInputLength; lim != 0 && len(a.In) > lim {
+		e = oracle.SizeExpect{Class: oracle.SReject, Why: "longer than MaxInputLength"}
+	}
+	// named string / byte-slice input types behave like the plain ones
+	{
+		type namedS string
+		type namedB []byte
+		pv, pe := size.DefaultParser(string(a.In), 0)
+		nv, ne := size.DefaultParser(namedS(a.In), 0)
+		bv, be := size.DefaultParser(namedB(a.In), 0)
+		if nv != pv || bv != pv || (ne == nil) != (pe == nil) || (be == nil) != (pe == nil) {
+			return "named_type_differs", fmt.Sprintf("DefaultParser(%q): plain %d,%v named string %d,%v named []byte %d,%v", a.In, uint64(pv), pe, uint64(nv), ne, uint64(bv), be)
+		}
+	}
 	cp := append([]byte(nil), a.In...)
 	if a.Prev != nil {
 		buf := make([]byte, 0, 256)
@@ -446,7 +468,7 @@ func main() {
 		reset()
 		pNU := mc.NewProbe(r, "new_uint64_and_text", nil, probeNU)
 		pNK := mc.NewProbe(r, "new_kind", nil, probeNK)
-		pTX := mc.NewProbe(r, "text", nil, probeTX)
+		pTX := mc.NewProbe(r, "text", setupTX, probeTX)
 		pBY := mc.NewProbe(r, "bytes", nil, probeBY)
 		pC := mc.NewProbe(r, "constraint", nil, probeC)
 		r.Assume("reference arithmetic in math/big; unit multipliers kB..EB = 1000^k, KiB..EiB = 1024^k, ZB/YB/ZiB/YiB only with zero")
@@ -699,6 +721,20 @@ func main() {
 				}
 			})
 		})
+		for _, ml := range []int{0, 10, 1000, 129} {
+			ml := ml
+			r.Phase(fmt.Sprintf("MaxInputLength=%d: zero-padded digit runs and separator runs of every length 0..400", ml), "complete grid", func() {
+				setupTX(txArg{Max: &ml})
+				r.Parallel(401, 4, func(w *mc.W, k int64) {
+					z := strings.Repeat("0", int(k))
+					for _, s := range []string{z + "1", z + "12kB", z + "18446744073709551615", z + "18446744073709551616", "7" + strings.Repeat(" ", int(k)) + "KiB", " " + z + "5 B ", strings.Repeat("1 ", int(k)/20) + "B"} {
+						w.Point()
+						pTX.Do(w, txArg{In: mc.Bin(s), Max: &ml})
+					}
+				})
+				reset()
+			})
+		}
 		// Bytes[N]
 		var bvals []uint64
 		addb := func(v uint64) { bvals = append(bvals, v) }
